@@ -22,7 +22,8 @@ R26c  fidelity: ``encoding=`` is the function's encoding parameter,
       applied to the temp on every path to the rename on which it is known.
 R26d  suffix: the caller (role: method of LintedFile that calls the replacing
       function) passes ``self.path`` as the stat-only input path; the output
-      path is ``self.path`` or ``root + suffix + ext`` with ``root, ext`` from
+      path is ``self.path`` or ``root + suffix + ext`` (or the f-string of the
+      three) with ``root, ext`` from
       ``os.path.splitext(self.path)``, and with a suffix it is always the
       latter; the callee uses its input path for ``os.stat`` only.
 R26e  who may write, and when: every write-capable call in src/sqlfluff and
@@ -386,9 +387,12 @@ def _r26d(chk, W) -> None:
 
 def _suffix_build(cfg, e, at, P):
     """``root + suffix + ext`` with root/ext = os.path.splitext(self.path): returns the suffix parameter name."""
-    if not (isinstance(e, ast.BinOp) and isinstance(e.op, ast.Add) and isinstance(e.left, ast.BinOp) and isinstance(e.left.op, ast.Add)):
+    if isinstance(e, ast.JoinedStr) and len(e.values) == 3 and all(isinstance(v, ast.FormattedValue) and v.format_spec is None for v in e.values):
+        root, sfx, ext = (v.value for v in e.values)  # f"{root}{suffix}{ext}"
+    elif isinstance(e, ast.BinOp) and isinstance(e.op, ast.Add) and isinstance(e.left, ast.BinOp) and isinstance(e.left.op, ast.Add):
+        root, sfx, ext = e.left.left, e.left.right, e.right
+    else:
         return None
-    root, sfx, ext = e.left.left, e.left.right, e.right
 
     def split_part(x, idx):
         if isinstance(x, ast.Name):
